@@ -38,7 +38,7 @@ class Task final {
 
   Task() noexcept = default;
   ~Task() noexcept {
-    if (Valid()) {
+    if (Valid() && !Ready()) {
       std::move(*this).Cancel();
     }
   }
